@@ -66,8 +66,8 @@ type cliCfg struct {
 	stale    bool // the JSON output files exist already, holding a longer document of an earlier run
 }
 
-var cliProgs = []string{"find all 'a' (maybe not ' ') = x", "find all 'zzz'", "replace all 'a' with 'XY'", "find all ("}
-var cliGlobs = []string{"a.txt", "*.txt", "zzz*"}
+var cliProgs = []string{"find all 'a' (maybe not ' ') = x", "find all 'zzz'", "replace all 'a' with 'XY'", "find all (", "replace all 'b' with ''"}
+var cliGlobs = []string{"a.txt", "*.txt", "zzz*", "a*a.txt"}
 var cliModes = []string{"", "NEW", "NOTHING", "OVERWRITE", "BOGUS"}
 
 func (k cliCfg) args() []string {
@@ -103,6 +103,7 @@ func cliSetup(dir string, staleOutputs bool) {
 	os.WriteFile(filepath.Join(dir, "a.txt"), []byte("ab a%d\nxa\"b a\\ 100% a%s\n"), 0o644)
 	os.WriteFile(filepath.Join(dir, "b.txt"), []byte("bab"), 0o644)
 	os.WriteFile(filepath.Join(dir, "c.md"), []byte("aaa"), 0o644)
+	os.WriteFile(filepath.Join(dir, "aba.txt"), []byte("ab"), 0o644)
 	os.WriteFile(filepath.Join(dir, "a.txt.vored"), []byte("STALE STALE STALE STALE"), 0o644)
 	// output files left over from an earlier, larger run: they must be replaced, not overwritten in place
 	if staleOutputs {
@@ -117,8 +118,14 @@ func runC18(c *Ctx) {
 		return
 	}
 	for _, src := range []bool{false, true} {
-		for prog := 0; prog < 4; prog++ {
-			for fs := 0; fs < 3; fs++ {
+		for prog := 0; prog < len(cliProgs); prog++ {
+			for fs := 0; fs < len(cliGlobs); fs++ {
+				if fs == 3 && prog != 0 && prog != 4 {
+					continue // the overlapping-star glob is crossed with two programs only
+				}
+				if prog == 4 && fs != 0 && fs != 3 {
+					continue
+				}
 				for so := 0; so < 4; so++ {
 					for _, jf := range []bool{false, true} {
 						for _, fj := range []bool{false, true} {
@@ -182,6 +189,8 @@ func c18Case(c *Ctx, k cliCfg) {
 	rec := map[string]any{"kind": "cli", "args": args, "exit": exit, "stdout": trunc(so.String(), 400), "stderr": trunc(se.String(), 400)}
 	desc := "vore " + strings.Join(args, " ")
 	invalid := k.stdout == 3 || k.mode == 4 || k.prog == 3
+	isReplaceProg := k.prog == 2 || k.prog == 4
+	_ = isReplaceProg
 	cls := fmt.Sprintf("prog%d files%d stdout%d jf%v fj%v mode%s no%v", k.prog, k.fileset, k.stdout, k.jsonFile, k.fjFile, cliModes[k.mode], k.noOutput)
 	c.Outcome(fmt.Sprintf("%v %d %v", invalid, exit, fmtDirFull(before) == fmtDirFull(after)))
 	if invalid {
@@ -222,8 +231,16 @@ func c18Case(c *Ctx, k cliCfg) {
 	case 3:
 		mode = engine.OVERWRITE
 	}
+	// the files the glob denotes, by the reference matcher of C20 (not by the library under test)
 	var list []string
-	guard(func() { list = files.ParsePath(cliGlobs[k.fileset]).GetFileList(twin) })
+	if entries, err := os.ReadDir(twin); err == nil {
+		for _, e := range entries {
+			if !e.IsDir() && globMatch(cliGlobs[k.fileset], e.Name()) {
+				list = append(list, filepath.Join(twin, e.Name()))
+			}
+		}
+	}
+	_ = files.ParsePath
 	var lib engine.Matches
 	if len(list) > 0 {
 		if pi := guard(func() { lib = v.RunFiles(list, mode, false) }); pi != nil {
@@ -231,7 +248,7 @@ func c18Case(c *Ctx, k cliCfg) {
 		}
 	}
 	for i := range lib {
-		lib[i].Filename = strings.TrimPrefix(lib[i].Filename, twin+"/")
+		lib[i].Filename = strings.TrimPrefix(strings.TrimPrefix(lib[i].Filename, twin+"/"), "/")
 	}
 	expected := snapshotDir(twin)
 	// directory: everything except the JSON output files must equal the twin
